@@ -121,13 +121,21 @@ BaseSel == Sel(<<10, 1, 2, 3>>, <<10, 1, 2, 0>>, 32, 24, 0, 256, 6)
 BaseSel6 == Sel(<<32, 1, 13, 184>> \o Zeros(11) \o <<1>>, [i \in 1..16 |-> 255], 128, 128, 65535, 1, 58)
 Sa(s, sp, pr, m, lf, al) == [sel |-> s, src |-> IF Len(s.saddr) = 4 THEN <<192, 168, 0, 1>> ELSE s.saddr, dst |-> IF Len(s.saddr) = 4 THEN <<192, 168, 0, 2>> ELSE s.daddr, spi |-> sp, ipsec_proto |-> pr, mode |-> m, life |-> lf] @@ al
 BaseAlg == [ealg |-> CBC, ekey |-> Key(32, 9), aalg |-> HSHA256, akey |-> Key(32, 11)]
+\* tunnels whose protected networks are of the other family than the tunnel endpoints: the selector carries its own family, the outer family fields
+\* (xfrm_usersa_info.family, xfrm_user_tmpl.family) say how to read the ENDPOINT addresses
+V6a == <<32, 1, 13, 184>> \o Zeros(11) \o <<1>>
+V6b == <<32, 1, 13, 184>> \o Zeros(11) \o <<2>>
+CrossPairs == { <<BaseSel6, <<192, 168, 0, 1>>, <<192, 168, 0, 2>> >>, <<BaseSel, V6a, V6b>> }
+NewSasX == {[sel |-> c[1], src |-> c[2], dst |-> c[3], spi |-> <<1, 2, 3, 4>>, ipsec_proto |-> pr, mode |-> 1, life |-> [unlimited |-> FALSE, secs |-> <<0, 0, 0, 60>>]] @@ BaseAlg :
+              c \in CrossPairs, pr \in {50, 51}}
 \* every selector with one parameter set, and every parameter combination with two selectors (IPv4 / IPv6)
-NewSas == {Sa(s, <<1, 2, 3, 4>>, 50, 0, [unlimited |-> FALSE, secs |-> <<0, 0, 0, 60>>], BaseAlg) : s \in SelsAll} \cup
+NewSas == NewSasX \cup {Sa(s, <<1, 2, 3, 4>>, 50, 0, [unlimited |-> FALSE, secs |-> <<0, 0, 0, 60>>], BaseAlg) : s \in SelsAll} \cup
           {Sa(s, sp, pr, m, lf, al) : s \in {BaseSel, BaseSel6}, sp \in Spi, pr \in {50, 51}, m \in {0, 1}, lf \in Lifes, al \in Algs}
 DelSas == {[dst |-> d, spi |-> sp, ipsec_proto |-> pr] : d \in A4 \cup A6, sp \in Spi, pr \in {50, 51}}
 Policies == {[sel |-> s, src |-> IF Len(s.saddr) = 4 THEN <<192, 168, 0, 1>> ELSE s.saddr, dst |-> IF Len(s.saddr) = 4 THEN <<192, 168, 0, 2>> ELSE s.daddr, ipsec_proto |-> pr, mode |-> m, dir |-> d, index |-> ix] :
                s \in {x \in Sels4 : x.sport = 0 /\ x.proto = 6 /\ x.plen_s \in {24, 0}} \cup {x \in Sels6 : x.proto = 58 /\ x.plen_d \in {0, 64}}, pr \in {50, 51}, m \in {0, 1}, d \in {0, 1, 2},
                ix \in {<<0, 0>>, <<0, 9>>, <<16, 1>>, <<8191, 65535>>}}
+            \cup {[sel |-> c[1], src |-> c[2], dst |-> c[3], ipsec_proto |-> 50, mode |-> 1, dir |-> d, index |-> <<0, 9>>] : c \in CrossPairs, d \in {0, 1, 2}}
 
 \* ---------------------------------------------------------------------------------------------- framing theorems
 Get16LE(b, off) == b[off + 1] + 256 * b[off + 2]
